@@ -1,3 +1,243 @@
-(* C08 — Reset values reach the wire exactly as declared. *)
-From Coq Require Import ZArith List Bool String.
-From DD Require Import Common Mir GenErr Reset ResetProofs.
+(* C08 — Reset values reach the wire exactly as declared.
+   Property theorems only; the model and the specification are in theories/Reset.v, proofs in ResetProofs.v.
+
+   Vocabulary (Reset.v):
+     convert_reset_value rv bit_order size ty name byte_order : outcome (result (list Z))
+         the model of reset_values_converted::convert_reset_value; Fail = generator panic, Ok (RErr e) = compile_error!,
+         Ok (ROk bytes) = the byte literals later emitted
+     accepted r := exists out, r = Ok (ROk out)        rejected r := r is Ok (RErr e) with kind reset_len / reset_too_big
+     spec_bytes rv bo size   what the property says a fresh field set holds: None -> zeros of ceil(size/8) bytes,
+                             array -> verbatim, integer v -> bytes (v / 256^i) mod 256 for i < ceil(size/8), reversed for BE
+     reg_bit bo bito bytes k := BitsSpec.setbit (bo_of bo) (bito_of bito) bytes k      -- exactly C01's numbering
+     spec_reject             array: length <> ceil(size/8) \/ exists k in [size, 8*len) with reg_bit = true
+                             integer v: 2^(8*ceil(size/8)) <= v \/ exists such k in the bytes spec_bytes produces
+     pipeline_with rf d      byte_order_specified ; reset_values_converted ; refs_validated ; emission of the
+                             constructors (rf = true: refs_validated first, the repaired order) *)
+From Coq Require Import ZArith List Bool String Lia.
+From DD Require Import Common Carrier Bits BitsSpec Mir GenErr Layout Reset ResetProofs.
+Import ListNotations.
+Open Scope Z_scope.
+
+(* ---------------------------------------------------------------- the conversion, for EVERY size 1..128 *)
+
+(* On the property's whole domain — every size 1..128, both byte orders, both bit orders, integer (any u128) and
+   array (any length, any bytes) form — the conversion accepts exactly the values the property does not want
+   rejected, and rejects (with a compile error, not a panic) exactly the others. *)
+Theorem C08_accept_iff : forall rv bito size ty name bo,
+  1 <= size <= 128 -> rv_wf rv ->
+  (accepted (convert_reset_value rv bito size ty name bo) <-> ~ spec_reject rv bo bito size) /\
+  (rejected (convert_reset_value rv bito size ty name bo) <-> spec_reject rv bo bito size).
+Proof. exact convert_accept_iff. Qed.
+
+(* ... and it never panics there. *)
+Theorem C08_never_panics : forall rv bito size ty name bo, 1 <= size <= 128 ->
+  accepted (convert_reset_value rv bito size ty name bo) \/ rejected (convert_reset_value rv bito size ty name bo).
+Proof. exact convert_total. Qed.
+
+(* Whatever is accepted comes out as the property says (array verbatim; integer = little-endian bytes cut to
+   ceil(size/8), reversed for BE registers), with exactly ceil(size/8) bytes, so the emitted literal fits [u8; N]. *)
+Theorem C08_bytes : forall rv bito size ty name bo out, 0 <= size ->
+  convert_reset_value rv bito size ty name bo = Ok (ROk out) ->
+  out = spec_bytes (Some rv) bo size /\ Z.of_nat (List.length out) = byte_len size.
+Proof. exact convert_bytes. Qed.
+
+(* No accepted value has a bit at or above the register's size — bit k in C01's numbering for the register's own
+   byte and bit order. *)
+Theorem C08_no_bit_at_or_above_size : forall rv bito size ty name bo out,
+  1 <= size <= 128 -> rv_wf rv ->
+  convert_reset_value rv bito size ty name bo = Ok (ROk out) ->
+  forall k, size <= k < 8 * Z.of_nat (List.length out) -> setbit (bo_of bo) (bito_of bito) out k = false.
+Proof. exact convert_no_high_bit. Qed.
+
+(* The out-of-range rule of the array form IS C01's numbering: an array of the right length is rejected iff some
+   set-bit k with size <= k < 8*len is 1, where set-bit k is BitsSpec.setbit (phys_byte / phys_bit) for the
+   register's byte and bit order; otherwise it is passed through verbatim. Any size >= 1. *)
+Theorem C08_out_of_range_bit_uses_C01_numbering : forall arr bo bito size ty name,
+  1 <= size -> Z.of_nat (List.length arr) = byte_len size ->
+  (rejected (convert_reset_value (RArr arr) bito size ty name bo) <->
+   exists k, size <= k < 8 * Z.of_nat (List.length arr) /\ setbit (bo_of bo) (bito_of bito) arr k = true) /\
+  (convert_reset_value (RArr arr) bito size ty name bo = Ok (ROk arr) <->
+   forall k, size <= k < 8 * Z.of_nat (List.length arr) -> setbit (bo_of bo) (bito_of bito) arr k = false).
+Proof. exact array_reject_uses_setbit. Qed.
+
+(* LSB0 registers: an integer is accepted iff it is below 2^size (for MSB0 the rule is C08_accept_iff's: the
+   unused bits are the LOW bits of the last little-endian byte). *)
+Theorem C08_int_lsb0_accept_iff : forall v size ty name bo, 1 <= size <= 128 -> 0 <= v < 2 ^ 128 ->
+  accepted (convert_reset_value (RInt v) BiLSB0 size ty name bo) <-> v < 2 ^ size.
+Proof. exact int_lsb0_accept_iff. Qed.
+
+(* Outside the property's range: an integer reset value on a register wider than 128 bits panics the generator
+   (slice of the 128-bit view) — this is why the guard size <= 128 above is needed, not a totalised default. *)
+Theorem C08_int_over_128_panics : forall bito bo v size ty name, 128 < size ->
+  convert_reset_value (RInt v) bito size ty name bo = Fail AssertFail.
+Proof. exact convert_int_over_128. Qed.
+
+(* ---------------------------------------------------------------- the device: constructors and accessors *)
+
+(* Every register of an accepted definition (any nesting depth): its field set's new() holds the declared value
+   converted as above — zeros when none is declared —, [u8; N] / new_zero() have N = ceil(size/8) = the number of
+   literals in new(), its accessor hands `new` to RegisterOperation, and its declared value was acceptable.
+   The byte order is the register's own, else the global default, else LE (sizes <= 8). *)
+Theorem C08_new_constructor : forall rf d em,
+  pipeline_with rf d = Ok (ROk em) -> forall r,
+  In (ORegister r) (preorder_objects (d_objects d)) -> 0 < rg_size_bits r ->
+  let bo := effective_byte_order (d_config d) (rg_byte_order r) in
+  (exists cs, In cs (em_sets em) /\ cs_name cs = rg_name r /\ cs_size_bits cs = rg_size_bits r /\
+              cs_size_bytes cs = byte_len (rg_size_bits r) /\
+              cs_new cs = spec_bytes (rg_reset r) bo (rg_size_bits r) /\
+              Z.of_nat (List.length (cs_new cs)) = cs_size_bytes cs) /\
+  In {| ac_name := snake (rg_name r); ac_field_set := rg_name r; ac_reset_fn := "new" |} (em_accessors em) /\
+  (forall rv, rg_reset r = Some rv ->
+     accepted (convert_reset_value rv (rg_bit_order r) (rg_size_bits r) "register" (rg_name r) bo)).
+Proof. exact register_constructors. Qed.
+
+(* With unique object names (names_unique runs earlier), EVERY emitted constructor set with the register's name
+   has these bytes. *)
+Theorem C08_new_constructor_unique : forall rf d em,
+  pipeline_with rf d = Ok (ROk em) -> forall r cs,
+  NoDup (map object_name (preorder_objects (d_objects d))) ->
+  In (ORegister r) (preorder_objects (d_objects d)) -> 0 < rg_size_bits r ->
+  In cs (em_sets em) -> cs_name cs = rg_name r ->
+  cs_new cs = spec_bytes (rg_reset r) (effective_byte_order (d_config d) (rg_byte_order r)) (rg_size_bits r) /\
+  cs_size_bytes cs = byte_len (rg_size_bits r) /\ cs_size_bits cs = rg_size_bits r.
+Proof. exact register_constructor_unique. Qed.
+
+(* A ref that overrides the reset value (ref and target anywhere in the tree, target before or after the ref):
+   the target's field set gets its own constructor new_as_<snake ref name>() holding the override converted with
+   the TARGET's size, bit order and byte order; the ref's accessor hands exactly that constructor to
+   RegisterOperation (so write() starts from the override); the target's own new() keeps the target's own value;
+   and the override was acceptable. *)
+Theorem C08_ref_override_own_constructor : forall rf d em,
+  pipeline_with rf d = Ok (ROk em) -> forall c name target acc addr aao rv rep base,
+  In (ORef c name (OvRegister target acc addr aao (Some rv) rep)) (preorder_objects (d_objects d)) ->
+  search_object target (d_objects d) = Some (ORegister base) -> 0 < rg_size_bits base ->
+  let bo := effective_byte_order (d_config d) (rg_byte_order base) in
+  let size := rg_size_bits base in
+  (exists cs, In cs (em_sets em) /\ cs_name cs = rg_name base /\
+              In (new_as_name name, spec_bytes (Some rv) bo size) (cs_new_as cs) /\
+              cs_new cs = spec_bytes (rg_reset base) bo size) /\
+  In {| ac_name := snake name; ac_field_set := rg_name base; ac_reset_fn := new_as_name name |} (em_accessors em) /\
+  accepted (convert_reset_value rv (rg_bit_order base) size "ref register" name bo).
+Proof. exact ref_override_own_constructor. Qed.
+
+(* A ref without reset override uses the target's new(). *)
+Theorem C08_ref_without_override_uses_new : forall rf d em,
+  pipeline_with rf d = Ok (ROk em) -> forall c name target acc addr aao rep base,
+  In (ORef c name (OvRegister target acc addr aao None rep)) (preorder_objects (d_objects d)) ->
+  search_object target (d_objects d) = Some (ORegister base) ->
+  In {| ac_name := snake name; ac_field_set := rg_name base; ac_reset_fn := "new" |} (em_accessors em).
+Proof. exact ref_without_override_uses_new. Qed.
+
+(* A definition holding a register whose declared reset value must be rejected is not accepted. *)
+Theorem C08_device_rejects_bad_reset : forall rf d r rv,
+  In (ORegister r) (preorder_objects (d_objects d)) -> rg_reset r = Some rv ->
+  1 <= rg_size_bits r <= 128 -> rv_wf rv ->
+  spec_reject rv (effective_byte_order (d_config d) (rg_byte_order r)) (rg_bit_order r) (rg_size_bits r) ->
+  forall em, pipeline_with rf d <> Ok (ROk em).
+Proof. exact device_rejects_bad_reset. Qed.
+
+(* search_object (transcribed recursion) = first object with that name in pre-order. *)
+Theorem C08_search_object_first_in_preorder : forall name objs,
+  search_object name objs = find (fun x => String.eqb (object_name x) name) (preorder_objects objs).
+Proof. exact search_object_is_find. Qed.
+
+(* ---------------------------------------------------------------- non-vacuity *)
+
+(* book/src/registers.md: RESET_VALUE = 0x1234 on a 16-bit register is [0x34, 0x12] (LE) / [0x12, 0x34] (BE);
+   the array form [52, 18] is taken verbatim; the repository's unit tests (0x423 on 10/11 bits, MSB0 0xF8 on 5 bits,
+   [0x20,0xC4] BE MSB0 on 10/11 bits, 3 bytes for 32 bits). *)
+Example C08_book_examples :
+  convert_reset_value (RInt 0x1234) BiLSB0 16 "register" "Foo" BoLE = Ok (ROk [0x34; 0x12]) /\
+  convert_reset_value (RInt 0x1234) BiLSB0 16 "register" "Foo" BoBE = Ok (ROk [0x12; 0x34]) /\
+  convert_reset_value (RArr [52; 18]) BiLSB0 16 "register" "Foo" BoLE = Ok (ROk [52; 18]) /\
+  convert_reset_value (RArr [52; 18]) BiMSB0 16 "register" "Foo" BoBE = Ok (ROk [52; 18]) /\
+  convert_reset_value (RInt 0x423) BiLSB0 11 "register" "Reg" BoLE = Ok (ROk [0x23; 0x04]) /\
+  rejected (convert_reset_value (RInt 0x423) BiLSB0 10 "register" "Reg" BoLE) /\
+  convert_reset_value (RInt 0xF8) BiMSB0 5 "register" "Reg" BoLE = Ok (ROk [0xF8]) /\
+  rejected (convert_reset_value (RInt 0x1F) BiMSB0 5 "register" "Reg" BoLE) /\
+  convert_reset_value (RArr [0x20; 0xC4]) BiMSB0 11 "register" "Reg" BoBE = Ok (ROk [0x20; 0xC4]) /\
+  rejected (convert_reset_value (RArr [0x20; 0xC4]) BiMSB0 10 "register" "Reg" BoBE) /\
+  rejected (convert_reset_value (RArr [0; 0; 0]) BiLSB0 32 "register" "Reg" BoLE) /\
+  convert_reset_value (RInt (2 ^ 128 - 1)) BiMSB0 128 "register" "Reg" BoBE = Ok (ROk (List.repeat 255 16)) /\
+  rejected (convert_reset_value (RInt (2 ^ 127)) BiLSB0 127 "register" "Reg" BoBE).
+Proof.
+  vm_compute. repeat split; try reflexivity;
+    (eexists; split; [reflexivity|]; first [left; reflexivity|right; reflexivity]).
+Qed.
+
+(* both sides of C08_accept_iff are inhabited: an out-of-range bit in C01's numbering (BE: the first byte is the
+   high one; MSB0: bit 10 of [0x20,0xC4] BE is the 0x20 bit of the first byte), a wrong length, an integer that
+   does not fit; and acceptable values *)
+Example C08_spec_reject_inhabited :
+  spec_reject (RArr [0x20; 0xC4]) BoBE BiMSB0 10 /\ ~ spec_reject (RArr [0x20; 0xC4]) BoBE BiMSB0 11 /\
+  spec_reject (RArr [0; 0; 0]) BoLE BiLSB0 32 /\
+  spec_reject (RInt 0x10000) BoBE BiLSB0 16 /\ ~ spec_reject (RInt 0x1234) BoBE BiLSB0 16 /\
+  rv_wf (RInt 0x1234) /\ rv_wf (RArr [0x20; 0xC4]).
+Proof.
+  split; [right; exists 10; split; [cbn; lia|reflexivity]|].
+  split; [apply (proj1 (C08_accept_iff (RArr [0x20; 0xC4]) BiMSB0 11 "register" "R" BoBE ltac:(lia)
+                          ltac:(repeat constructor; lia))); eexists; reflexivity|].
+  split; [left; cbn; lia|].
+  split; [left; cbn; lia|].
+  split; [apply (proj1 (C08_accept_iff (RInt 0x1234) BiLSB0 16 "register" "R" BoBE ltac:(lia) ltac:(cbn; lia)));
+          eexists; reflexivity|].
+  split; [cbn; lia|repeat constructor; lia].
+Qed.
+
+Definition ex_cfg : config :=
+  {| g_default_register_access := RW; g_default_field_access := RW; g_default_buffer_access := RW;
+     g_default_byte_order := None; g_default_bit_order := BiLSB0; g_register_address_type := Some IU8;
+     g_command_address_type := None; g_buffer_address_type := None; g_boundaries := []; g_defmt_feature := None |}.
+Definition ex_reg (name : string) (size : Z) (bo : option byte_ord) (rv : option reset_value) : object :=
+  ORegister {| rg_cfg := None; rg_name := name; rg_access := RW; rg_byte_order := bo; rg_bit_order := BiLSB0;
+               rg_allow_bit_overlap := false; rg_allow_address_overlap := false; rg_address := 0;
+               rg_size_bits := size; rg_reset := rv; rg_repeat := None; rg_fields := [] |}.
+
+(* book/src/refs.md shape: a ref nested in a block BEFORE its target, overriding the reset value of a BE register:
+   Foo::new() = [0x12,0x34], Foo::new_as_foo_ref() = [0,5] (5 as a 16-bit BE register), accessor foo_ref uses it,
+   a second ref without override uses new; a register without reset value gets zeros. *)
+Example C08_device_example :
+  let d := {| d_config := ex_cfg;
+              d_objects := [OBlock None "Blk" 10 None
+                               [ORef None "FooRef" (OvRegister "Foo" None (Some 5) false (Some (RInt 5)) None);
+                                ORef None "FooPlain" (OvRegister "Foo" None (Some 6) false None None)];
+                            ex_reg "Foo" 16 (Some BoBE) (Some (RInt 0x1234));
+                            ex_reg "Bar" 12 (Some BoLE) None] |} in
+  pipeline d = Ok (ROk {|
+    em_sets := [ {| cs_name := "Foo"; cs_size_bits := 16; cs_size_bytes := 2; cs_new := [0x12; 0x34];
+                    cs_new_as := [("new_as_foo_ref"%string, [0; 5])] |};
+                 {| cs_name := "Bar"; cs_size_bits := 12; cs_size_bytes := 2; cs_new := [0; 0]; cs_new_as := [] |} ];
+    em_accessors := [ {| ac_name := "foo_ref"; ac_field_set := "Foo"; ac_reset_fn := "new_as_foo_ref" |};
+                      {| ac_name := "foo_plain"; ac_field_set := "Foo"; ac_reset_fn := "new" |};
+                      {| ac_name := "foo"; ac_field_set := "Foo"; ac_reset_fn := "new" |};
+                      {| ac_name := "bar"; ac_field_set := "Bar"; ac_reset_fn := "new" |} ] |}) /\
+  pipeline_with true d = pipeline d /\
+  search_object "Foo" (d_objects d) = Some (ex_reg "Foo" 16 (Some BoBE) (Some (RInt 0x1234))) /\
+  NoDup (map object_name (preorder_objects (d_objects d))).
+Proof.
+  vm_compute. repeat split.
+  repeat (constructor; [cbn; intuition discriminate|]). constructor.
+Qed.
+
+(* finding D14: a ref with a reset override whose target does not exist (or is not a register) panics the generator,
+   because reset_values_converted runs before refs_validated; with the repaired order it is a proper error *)
+Example C08_dangling_override_panics :
+  let d := {| d_config := ex_cfg;
+              d_objects := [ORef None "FooRef" (OvRegister "Nope" None (Some 5) false (Some (RInt 1)) None)] |} in
+  pipeline_with false d = Fail AssertFail /\
+  pipeline_with true d = Ok (RErr (mk_err "ref_unknown" ["Register"; "FooRef"; "Nope"]%string)).
+Proof. vm_compute. split; reflexivity. Qed.
+
+Print Assumptions C08_accept_iff.
+Print Assumptions C08_never_panics.
+Print Assumptions C08_bytes.
+Print Assumptions C08_no_bit_at_or_above_size.
+Print Assumptions C08_out_of_range_bit_uses_C01_numbering.
+Print Assumptions C08_int_lsb0_accept_iff.
+Print Assumptions C08_int_over_128_panics.
+Print Assumptions C08_new_constructor.
+Print Assumptions C08_new_constructor_unique.
+Print Assumptions C08_ref_override_own_constructor.
+Print Assumptions C08_ref_without_override_uses_new.
+Print Assumptions C08_device_rejects_bad_reset.
+Print Assumptions C08_search_object_first_in_preorder.
